@@ -41,12 +41,15 @@ def shards(tier, seed):
     out = []
     for i in range(6 if tier == "quick" else 10):
         out.append({"kind": "expr", "i": i, "n": N_EXPR[tier], "hseed": seed * 1000 + 1800 + i})
-    for fe in SOLVER_FRONTENDS:
+    cfgs = [{"frontend": fe} for fe in SOLVER_FRONTENDS]
+    # approximate mode: answers are not determined by the constraints, so the unpickled copy is compared with the original
+    cfgs += [{"frontend": "SolverHybrid", "exact_kw": [False], "approx": True}, {"frontend": "SolverHybrid", "exact_kw": [None, True, False], "approx": True}]
+    for cfg in cfgs:
         for i in range(1 if tier == "quick" else 3):
-            out.append({"kind": "solver", "frontend": fe, "i": i, "n": N_HIST[tier], "hseed": seed * 1000 + 1850 + len(out)})
+            out.append({"kind": "solver", **cfg, "i": i, "n": N_HIST[tier], "hseed": seed * 1000 + 1850 + len(out)})
         for i in range(1 if tier == "quick" else 2):
             # directed: pickle taken while adds are unchecked / a branch family shares children / caches are full
-            out.append({"kind": "solver", "scenario": True, "frontend": fe, "i": i, "n": N_HIST[tier] * 2 // 3, "hseed": seed * 1000 + 1850 + len(out)})
+            out.append({"kind": "solver", "scenario": True, **cfg, "i": i, "n": N_HIST[tier] * 2 // 3, "hseed": seed * 1000 + 1850 + len(out)})
     return out
 
 
@@ -189,7 +192,9 @@ def run_shard(shard, ctx):
         def nontrivial(res):
             return bool(res.stats.get("pickles")) and res.stats.get("queries", 0) >= 1 and res.stats.get("adds", 0) >= 1
 
-        sp.run_random(shard, ctx, GROUPS, nontrivial, strategy=sm.scenario_pickle() if shard.get("scenario") else None)
+        kw = shard.get("exact_kw")
+        sp.run_random(shard, ctx, GROUPS, nontrivial, exact_kw=kw, strategy=sm.scenario_pickle(kw) if shard.get("scenario") else None,
+                      extra=[f"mode:{'approx' if shard.get('approx') else 'exact'}"])
         return
     spell = st.integers(0, 2**16)
     cfg = gen.cfg_for(tier)
